@@ -89,10 +89,20 @@ def _f(kind, detail, sub, facts=None, group=''):
 
 
 def selected_sets(built, cal, qmodel, si, targets):
-  """(ops with statistics, ops quantized) among the target operators."""
+  """(ops with statistics, ops quantized) among the target operators and the
+  virtual INPUT operator (the graph input feeds only an unsupported op, so its
+  statistics and its dtype are private to INPUT)."""
   fm, qm = fbparse.parse(built.model), fbparse.parse(qmodel)
   sm = skeleton.extract(fm, qm, si)
   cal_sel, q_sel = set(), set()
+  for _, t, kind in built.inputs[si]:
+    if kind != 'x':
+      continue
+    name = built.tname(si, t)
+    if name in cal and cal[name]:
+      cal_sel.add('INPUT')
+    if qm.subs[si].tensors[t].type != T.FLOAT32:
+      q_sel.add('INPUT')
   for k in targets:
     meta = built.ops[si][k]
     if any(built.tname(si, t) in cal and cal[built.tname(si, t)]
@@ -123,8 +133,15 @@ def run_case(case, note, skip):
   for si0 in range(nsub):
     for tk in tsets[si0][:1]:
       meta = built.ops[si0][tk]
-      for rg in regexes_for(built, meta, si0):
-        for sel in (meta.type, '*'):
+      xname = built.tname(si0, built.inputs[si0][0][1])
+      plan_ = [(rg, sel) for rg in regexes_for(built, meta, si0)
+               for sel in (meta.type, '*')]
+      # rules for the virtual INPUT operator, scoped by the graph input's name
+      plan_ += [(rg, 'INPUT') for rg in ('.*', re.escape(xname),
+                                         '^' + re.escape(xname),
+                                         re.escape(xname) + ';$', 'zzz_no')]
+      for rg, sel in plan_:
+        for _once in (0,):
           for mode in ('SRQ8a', 'SRQ16'):
             if sel != '*' and not md.supported(sel, mode):
               continue
@@ -177,7 +194,7 @@ def run_case(case, note, skip):
               if cs != qs:
                 res['fails'].append(_f(
                     'selection_differs', f'{sub} subgraph {si}: operators with '
-                    f'statistics {sorted(cs)}, operators quantized {sorted(qs)}',
+                    f'statistics {sorted(map(str, cs))}, operators quantized {sorted(map(str, qs))}',
                     sub, facts, 'selection:' + rg_class(rg)))
             if any_sel:
               res['nontrivial'] += 1
